@@ -23,6 +23,9 @@ def _dump(gc, names):
         if isinstance(v, proxies.PDict):
           for k2, v2 in dict.items(v):
             out[(v._pname, repr(k2))] = proxies.tok(v2)
+  for d in proxies.EXTERNAL_DICTS:
+    for k, v in dict.items(d):
+      out[(d._pname, repr(k))] = proxies.tok(v)
   return out
 
 
@@ -48,6 +51,9 @@ def run(programs, setup, mode, schedule=(), tail=(), shared=None):
     CTL.tail = list(tail)
     CTL.errors = []
     CTL.shared = shared
+    CTL.blocked = set()
+    CTL.executed = []
+    CTL.unfaithful = False
     results = [None] * len(programs)
 
     def body(i):
@@ -80,6 +86,29 @@ def run(programs, setup, mode, schedule=(), tail=(), shared=None):
   finally:
     undo_tap()
     undo()
+
+
+def sequential_finals(programs, setup, limit=24):
+  """Final shared states of running the programs one after another in EVERY order
+  (the identity order first).  A statement of the form "the final state equals that
+  of running the same calls one after another" does not fix the order, so a final
+  state is accepted when it equals that of some order.  LIST_INIT / CELL_INIT are
+  left as the identity-order run set them."""
+  import itertools
+  out = []
+  keep_l, keep_c = None, None
+  for n, perm in enumerate(itertools.permutations(range(len(programs)))):
+    if n >= limit:
+      break
+    _, results, errors, final, _ = run([programs[i] for i in perm], setup, 'solo')
+    if n == 0:
+      keep_l, keep_c = dict(LIST_INIT), dict(CELL_INIT)
+    out.append(final)
+  LIST_INIT.clear()
+  LIST_INIT.update(keep_l or {})
+  CELL_INIT.clear()
+  CELL_INIT.update(keep_c or {})
+  return out
 
 
 def shared_objects(all_traces):
@@ -153,8 +182,15 @@ def compress(trace, guard, bad=frozenset()):
 class Scenario:
   """One multi-threaded scenario: programs + setup + property queries."""
 
-  def __init__(self, name, programs, setup, prop, check_result=None, ignore=()):
+  def __init__(self, name, programs, setup, prop, check_result=None, ignore=(), permute=False,
+               final_objects=()):
     self.name, self.programs, self.setup = name, programs, setup
+    # object-name prefixes whose final contents are compared with the sequential run(s) after EVERY
+    # forced run, whether or not the model contains them (a record replaced as a whole is a write to
+    # the outer dict only; its contents are then visible in the dump, not in the events)
+    self.final_objects = tuple(final_objects)
+    self.permute = permute            # accept the final state of ANY sequential order (see sequential_finals)
+    self.seq_finals = None
     self.ignore = tuple(ignore)   # object-name prefixes abstracted away in this scenario
     self.prop = prop                  # function(model) -> list of (label, z3 constraint list)
     self.check_result = check_result  # function(results, final) -> violation text or None
@@ -168,9 +204,12 @@ class Scenario:
     """Final state restricted to the modelled objects; identity tokens only as presence."""
     out = {}
     for (obj, key), tokv in final.items():
-      if obj in self.shared:
+      if obj in self.shared or (self.final_objects and obj.startswith(self.final_objects)):
         out[(obj, key)] = 'present' if str(tokv).startswith(('obj#', 'dict#')) else tokv
     return out
+
+  def final_differs(self, final):
+    return self.abstract(final) not in [self.abstract(f) for f in (self.seq_finals or [self.seq_final])]
 
   def record(self, mode, schedule=(), tail=()):
     traces, results, errors, final, names = run(self.programs, self.setup, mode, schedule, tail,
@@ -227,6 +266,8 @@ class Scenario:
       if v:
         violations.append(('sequential run: ' + v, []))
         return violations, False
+    if self.permute:
+      self.seq_finals = sequential_finals(self.programs, self.setup)
     # 2. learning loop: ask for a schedule reaching an unrecorded observation, run it
     model = None
     for it in range(max_iters):
@@ -240,12 +281,20 @@ class Scenario:
       sched, who = dv
       order = [who] + [i for i in range(len(self.programs)) if i != who]
       traces, results, errors, final = self.record('forced', sched, order)
+      if CTL.unfaithful:
+        self.infra.append('%s: a forced run went on without a lock it needed (%r): ignored' % (self.name, errors))
+        continue
       if self.check_result:
         v = self.check_result(results, final)
         if v:
           # found while exploring: confirm by running the same schedule again
-          violations.append((v, sched))
+          # (reported with the complete schedule that was run, so that the replay does not depend
+          # on the order in which the tail phase let the threads finish)
+          violations.append((v, list(CTL.executed)))
           return violations, False
+      if self.final_objects and not errors and self.final_differs(final):
+        violations.append(('final shared state differs from the sequential one', list(CTL.executed)))
+        return violations, False
       model = None
     else:
       self.infra.append('%s: observation tries did not close in %d iterations' % (self.name, max_iters))
@@ -260,10 +309,14 @@ class Scenario:
       _, m = r
       sched = list(model.last_expanded)
       traces, results, errors, final = self.record('forced', sched, list(range(len(self.programs))))
+      if CTL.unfaithful:
+        self.infra.append('%s: the forced run for "%s" went on without a lock it needed (%r): ignored' %
+                          (self.name, label, errors))
+        exhaustive = False
+        continue
       v = self.check_result(results, final) if self.check_result else None
-      if v is None and label.startswith('final'):
-        if self.abstract(final) != self.abstract(self.seq_final):
-          v = 'final shared state differs from the sequential one'
+      if v is None and (label.startswith('final') or self.final_objects) and self.final_differs(final):
+        v = 'final shared state differs from the sequential one'
       if v:
         violations.append(('%s: %s' % (label, v), sched))
       else:
@@ -286,14 +339,23 @@ def standard_queries(model, scen):
   """(a) an error event in some thread, (b) a final state different from the sequential one."""
   out = [('error event (KeyError / dict changed size during iteration / deadlock)',
           [model.bad[model.T], z3.Not(model.div[model.T])])]
-  diffs = []
-  for c, ci in model.cells.items():
-    want_p = c in scen.seq_final
-    diffs.append(model.pres[ci][model.T] != want_p)
-    if want_p and _bmc().abs_tok(scen.seq_final[c]) in model.tokens:
-      diffs.append(z3.And(model.pres[ci][model.T],
-                          model.val[ci][model.T] != model.tokens[_bmc().abs_tok(scen.seq_final[c])]))
-  if diffs:
+  # the final state must equal that of SOME sequential order (one order unless scen.permute)
+  differs_from_all, seen = [], []
+  for seq_final in (getattr(scen, 'seq_finals', None) or [scen.seq_final]):
+    key = sorted((c, _bmc().abs_tok(t)) for c, t in seq_final.items() if c in model.cells)
+    if key in seen:
+      continue
+    seen.append(key)
+    diffs = []
+    for c, ci in model.cells.items():
+      want_p = c in seq_final
+      diffs.append(model.pres[ci][model.T] != want_p)
+      if want_p and _bmc().abs_tok(seq_final[c]) in model.tokens:
+        diffs.append(z3.And(model.pres[ci][model.T],
+                            model.val[ci][model.T] != model.tokens[_bmc().abs_tok(seq_final[c])]))
+    if diffs:
+      differs_from_all.append(z3.Or(diffs))
+  if differs_from_all:
     out.append(('final state', [z3.Not(model.bad[model.T]), z3.Not(model.div[model.T]),
-                                model.all_done_end, z3.Or(diffs)]))
+                                model.all_done_end, z3.And(differs_from_all)]))
   return out
